@@ -96,6 +96,10 @@ class ExprMixin:
                 return res
             return [(st, v)]
         decl = self.schema.globs[key]
+        if decl.factory is not None:
+            v = decl.factory(self, st)
+            st.globs[key] = v
+            return [(st, v)]
         if decl.const is not None:
             v = decl.const
             st.globs[key] = v
@@ -313,6 +317,10 @@ class ExprMixin:
 
     def ev_Dict(self, node, st):
         # {**a, **b} and constant-key displays
+        if not node.keys:
+            HT = getattr(self.cur_contract, "heap_dict_T", None) if not self.spec else None
+            if HT is not None:
+                return [self.val(st, st.new_map(HT))]
         out = []
         keys = node.keys
         vals = node.values
@@ -786,7 +794,31 @@ class ExprMixin:
                 if ki in d:
                     return [self.val(st, d[ki])]
                 return [self.raise_new(st, "KeyError")]
-            raise EngineError("symbolic key into a concrete dict")
+            # symbolic key: one outcome per constant key (exact)
+            keys = list(d)
+            if self.spec:
+                acc = None
+                for kk in reversed(keys):
+                    acc = d[kk] if acc is None else self.merge(self.eq(k, self._pyconst(kk), st), d[kk], acc)
+                if acc is None:
+                    raise EngineError("lookup in an empty concrete dict")
+                return [self.val(st, acc)]
+            out = []
+            cur = st
+            for kk in keys:
+                if cur is None:
+                    break
+                arms = self.branch(cur, self.eq(k, self._pyconst(kk), cur))
+                cur = None
+                for b, s2 in arms:
+                    if b:
+                        s2.notes.append(f"key=={kk!r}")
+                        out.append(self.val(s2, s2.loc(c).data[kk]))
+                    else:
+                        cur = s2
+            if cur is not None:
+                out.append(self.raise_new(cur, "KeyError"))
+            return out
         if isinstance(c, VRef) and isinstance(c.T, ty.Map):
             kt = flatten(k, c.T.key)[0]
             has = st.map_has(c, kt)
